@@ -22,40 +22,10 @@ def template_of_joinedstr(js: ast.JoinedStr):
     return out
 
 
-def run(prog, tier) -> Result:
-    res = Result("C18")
-    res.explanation = (
-        "R18.1: Quantity.__new__ is evaluated abstractly for every amount kind (Decimal, Fraction, int, bool, stdlib "
-        "decimal, float, str, other): the stored amount equals the given number exactly (floats through the exact "
-        "Decimal/Fraction coercions; strings through Decimal, then Fraction, else QuantityError), no float is stored, "
-        "and the only rounding is the quantum step. R18.3: str(q) is amount, one blank, unit symbol; the default "
-        "format spec instantiates to the same template; the reader splits at the first blank and strips the symbol, "
-        "and a unit's str is the symbol the reader looks up. R18.4/5: unknown symbol, malformed amount, missing "
-        "unit and unit of another type raise QuantityError; a string with an explicit different unit equals parsing "
-        "and then converting; both factories yield the type of the symbol's unit.")
-    res.trusted = ["Decimal(str)/Fraction(str) parse exactly what str(amount) prints (dependency / fractions)"]
-    res.assumptions = ["NOT decided: that str(amount) re-parses to the identical number for every amount (dependency text forms)"]
-    cr = CaseRunner(prog, res, max_depth=8 if tier == "quick" else 12)
+def string_cases(prog, cr, rule="R18.4"):
+    """Outcome tables of the string path of Quantity.__new__ (shared with C15) and the reader idiom."""
     new = prog.method("Quantity", "__new__")
-
-    ctor_cases(prog, cr, rule="R18.1")
-    for lbl, mk in (("None", lambda c: NONE), ("list", lambda c: ListV([])), ("unit", lambda c: c.unit("ux", "T"))):
-        def setup(c, mk=mk):
-            c.new_type("T", **FLAVORS["ref"])
-            return [c.cls("T"), mk(c), c.unit("us", "T")], {}
-        cr.run("R18.1", new, f"amount {lbl}", setup, lambda o: expect_raise(o, ["TypeError"]), inline_ctor=True)
-
-    def setup_badunit(c):
-        c.new_type("T", **FLAVORS["ref"])
-        return [c.cls("T"), c.num("x", "dec"), c.num("notaunit", "int")], {}
-    cr.run("R18.1", new, "unit is not a Unit", setup_badunit, lambda o: expect_raise(o, ["TypeError"]), inline_ctor=True)
-
-    def setup_nounit(c):
-        c.new_type("T", **FLAVORS["noref"])
-        return [c.cls("T"), c.num("x", "dec")], {}
-    cr.run("R18.4", new, "no unit and no reference unit", setup_nounit,
-           lambda o: expect_raise(o, ["QuantityError"]), inline_ctor=True)
-
+    res = cr.res
     # ---- string path
     P = RF.atom(("parsed", "part0"))
 
@@ -120,8 +90,62 @@ def run(prog, tier) -> Result:
                                               "UndefinedResultError")
     for factory in ("generic", "own type"):
         for wu in (False, True):
-            cr.run("R18.4", new, f"string, {factory} factory, {'explicit unit' if wu else 'no unit argument'}",
+            cr.run(rule, new, f"string, {factory} factory, {'explicit unit' if wu else 'no unit argument'}",
                    setup_str(factory, wu), judge_str(factory, wu), inline_ctor=True, min_paths=4)
+
+
+    # reader idiom: amount and symbol are separated at the first blank, the symbol is stripped
+    idiom, reader_ok = None, False
+    for n in ast.walk(new.node):
+        if isinstance(n, ast.Call) and isinstance(n.func, ast.Attribute) and \
+                n.func.attr in ("split", "partition", "rsplit", "rpartition"):
+            args = [src_of(a) for a in n.args]
+            idiom = f"{n.func.attr}({', '.join(args)})"
+            if n.func.attr == "split" and args in (["' '", "1"], ["None", "1"]):
+                reader_ok = True
+            if n.func.attr == "partition" and args == ["' '"]:
+                reader_ok = True
+    if idiom is None:
+        raise AnalysisError("anchor vanished: string splitting idiom in Quantity.__new__")
+    res.ob(rule + "i", "Quantity.__new__", "reader splits at the first blank", reader_ok, f"idiom {idiom}",
+           sig="reader does not separate amount and symbol at the first blank")
+
+
+def run(prog, tier) -> Result:
+    res = Result("C18")
+    res.explanation = (
+        "R18.1: Quantity.__new__ is evaluated abstractly for every amount kind (Decimal, Fraction, int, bool, stdlib "
+        "decimal, float, str, other): the stored amount equals the given number exactly (floats through the exact "
+        "Decimal/Fraction coercions; strings through Decimal, then Fraction, else QuantityError), no float is stored, "
+        "and the only rounding is the quantum step. R18.3: str(q) is amount, one blank, unit symbol; the default "
+        "format spec instantiates to the same template; the reader splits at the first blank and strips the symbol, "
+        "and a unit's str is the symbol the reader looks up. R18.4/5: unknown symbol, malformed amount, missing "
+        "unit and unit of another type raise QuantityError; a string with an explicit different unit equals parsing "
+        "and then converting; both factories yield the type of the symbol's unit.")
+    res.trusted = ["Decimal(str)/Fraction(str) parse exactly what str(amount) prints (dependency / fractions)"]
+    res.assumptions = ["NOT decided: that str(amount) re-parses to the identical number for every amount (dependency text forms)"]
+    cr = CaseRunner(prog, res, max_depth=8 if tier == "quick" else 12)
+    new = prog.method("Quantity", "__new__")
+
+    ctor_cases(prog, cr, rule="R18.1")
+    for lbl, mk in (("None", lambda c: NONE), ("list", lambda c: ListV([])), ("unit", lambda c: c.unit("ux", "T"))):
+        def setup(c, mk=mk):
+            c.new_type("T", **FLAVORS["ref"])
+            return [c.cls("T"), mk(c), c.unit("us", "T")], {}
+        cr.run("R18.1", new, f"amount {lbl}", setup, lambda o: expect_raise(o, ["TypeError"]), inline_ctor=True)
+
+    def setup_badunit(c):
+        c.new_type("T", **FLAVORS["ref"])
+        return [c.cls("T"), c.num("x", "dec"), c.num("notaunit", "int")], {}
+    cr.run("R18.1", new, "unit is not a Unit", setup_badunit, lambda o: expect_raise(o, ["TypeError"]), inline_ctor=True)
+
+    def setup_nounit(c):
+        c.new_type("T", **FLAVORS["noref"])
+        return [c.cls("T"), c.num("x", "dec")], {}
+    cr.run("R18.4", new, "no unit and no reference unit", setup_nounit,
+           lambda o: expect_raise(o, ["QuantityError"]), inline_ctor=True)
+
+    string_cases(prog, cr, rule="R18.4")
 
     # ---- R18.3 text template: writer / reader agreement
     qstr = prog.method("Quantity", "__str__")
@@ -134,6 +158,18 @@ def run(prog, tier) -> Result:
     dfl = prog.cls("Quantity").attrs.get("dflt_format_spec")
     res.ob("R18.3", "Quantity.dflt_format_spec", "'{a} {u}'", isinstance(dfl, ast.Constant) and dfl.value == "{a} {u}",
            src_of(dfl) if dfl is not None else "missing", sig="default format differs from str()")
+    for ci in prog.classes.values():
+        if ci.name != "Quantity" and prog.is_subclass(ci, "Quantity"):
+            for attr in ("dflt_format_spec",):
+                ov = ci.attrs.get(attr)
+                res.ob("R18.3", f"{ci.name}.{attr}", "subclass keeps the default template",
+                       ov is None or (isinstance(ov, ast.Constant) and ov.value == "{a} {u}"),
+                       f"{ci.name} overrides {attr} = {src_of(ov) if ov is not None else None}: format(q) without a "
+                       f"spec then differs from str(q)", sig="subclass overrides the default text template",
+                       nontrivial=False)
+            for meth in ("__str__", "__format__"):
+                res.ob("R18.3", f"{ci.name}.{meth}", "subclass does not override the text form", meth not in ci.methods,
+                       f"{ci.name} defines {meth}", sig="subclass overrides the text form", nontrivial=False)
     qfmt = prog.method("Quantity", "__format__")
     fsrc = src_of(qfmt.node)
     okf = "dflt_format_spec" in fsrc and any(
@@ -151,27 +187,12 @@ def run(prog, tier) -> Result:
         ([("field", src_of(ur[0].value), -1, None)] if ur else None)
     res.ob("R18.3", "Unit.__str__", "is the symbol", ut in ([("field", "self.symbol", -1, None)], [("field", "self._symbol", -1, None)]),
            f"{ut}", sig="str(unit) is not its symbol")
-    # reader idiom
-    reader_ok = False
-    idiom = None
-    for n in ast.walk(new.node):
-        if isinstance(n, ast.Call) and isinstance(n.func, ast.Attribute) and \
-                n.func.attr in ("split", "partition", "rsplit", "rpartition"):
-            args = [src_of(a) for a in n.args]
-            idiom = f"{n.func.attr}({', '.join(args)})"
-            if n.func.attr == "split" and args in (["' '", "1"], ["None", "1"]):
-                reader_ok = True
-            if n.func.attr == "partition" and args == ["' '"]:
-                reader_ok = True
-    if idiom is None:
-        raise AnalysisError("anchor vanished: string splitting idiom in Quantity.__new__")
-    res.ob("R18.3", "Quantity.__new__", "reader splits at the first blank", reader_ok, f"idiom {idiom}",
-           sig="reader does not separate amount and symbol at the first blank")
     strips = any(isinstance(n, ast.Call) and isinstance(n.func, ast.Attribute) and n.func.attr == "strip"
                  for n in ast.walk(new.node))
     res.ob("R18.3", "Quantity.__new__", "symbol stripped", strips, "", sig="symbol not stripped", nontrivial=False)
 
     res.require("R18.1", 28)
-    res.require("R18.3", 6)
+    res.require("R18.3", 5)
+    res.require("R18.4i", 1)
     res.require("R18.4", 5)
     return res
